@@ -99,9 +99,12 @@ func c28Exec(block string, timeout time.Duration) bool {
 	}
 }
 
-func c28Src(p c28Prog) string {
+// c28Src renders program number idx of a batch; the wrapper function of the
+// `runmode … function` forms gets a name of its own, because the programs of a
+// batch run concurrently and murex functions are global.
+func c28Src(p c28Prog, idx int) string {
 	if p.Chain != nil {
-		return rmSource(*p.Chain)
+		return strings.ReplaceAll(rmSource(*p.Chain), "rmw", fmt.Sprintf("rmw%d", idx))
 	}
 	return p.Raw
 }
@@ -137,8 +140,8 @@ func (c28) Run(raw json.RawMessage) Result {
 	rmInit()
 	var o c28Obs
 	exact := true
-	for _, p := range c.Progs {
-		o.Src = append(o.Src, c28Src(p))
+	for i, p := range c.Progs {
+		o.Src = append(o.Src, c28Src(p, i))
 		if p.Chain == nil {
 			exact = false
 		}
@@ -197,14 +200,14 @@ func (c28) Run(raw json.RawMessage) Result {
 
 	var wg sync.WaitGroup
 	var timeouts int32
-	for _, p := range c.Progs {
+	for i, p := range c.Progs {
 		wg.Add(1)
 		go func(src string) {
 			defer wg.Done()
 			if !c28Exec(src, 60*time.Second) {
 				atomic.AddInt32(&timeouts, 1)
 			}
-		}(c28Src(p))
+		}(c28Src(p, i))
 	}
 	wg.Wait()
 	close(stop)
